@@ -13,7 +13,7 @@ import opkit
 from cases import CaseSet, rng_for, pick_semiring
 
 PID = "C04"
-KINDS = ["emb", "cat_probs", "cat_logits", "cat_softmax", "gau", "poly"]
+KINDS = ["emb", "cat_probs", "cat_logits", "cat_softmax", "cat_softmax0", "gau", "poly"]
 
 
 def build_pair(rng, mode):
